@@ -981,4 +981,58 @@ example :
     (nd.shards 0).series.lookup 0 2 = some 1 ∧ (nd.shards 0).series.needFlush = true ∧
     (nd.shards 0).minv.disk.length = 2 ∧ (nd.shards 0).createSeriesID 0 = 3 := by decide
 
+
+/-! ## Round 9: namespace / metric-name limits — a createFn that fails inside `createValue` -/
+
+/-- `genNSID` / `genMetricID` test the limit against the number of ids handed out so far BEFORE they take the
+next counter value; `createValue` has made the bucket's map when createFn runs (`mutable.Put` before
+`createFn`), stores the name only after createFn succeeded (`string(key)` after it), and its error branches
+do nothing but return -/
+theorem name_limits_tie :
+    C09.metaGenNSIDCalls = ["models.GetDatabaseLimits", "limits.EnableNamespacesCheck", "sequence.GetNamespaceSeq", "sequence.GenNamespaceSeq"] ∧
+    C09.metaGenMetricIDFnCalls = ["models.GetDatabaseLimits", "limits.EnableMetricsCheck", "sequence.GetMetricNameSeq", "sequence.GenMetricNameSeq"] ∧
+    (callsBefore C09.kvCreateValueCalls "createFn").contains "mutable.Put" = true ∧
+    callsAfter C09.kvCreateValueCalls "createFn" = ["string"] ∧
+    C09.kvCreateValueErrBranchCalls.all (· = []) = true := by decide
+
+/-- with both limits off (the default, `ns_metric_limits_off_tie`) the limit-aware `GenMetricID` IS the one all
+other theorems speak about -/
+theorem name_limits_off_is_genMetric (c : Cfg) (nd : Node) (nb ns name : Nat)
+    (h1 : nd.lim.maxNamespaces = 0) (h2 : nd.lim.maxMetrics = 0) :
+    nd.genMetricLim c nb ns name = ((nd.genMetric c nb ns name).1, .out (nd.genMetric c nb ns name).2) :=
+  genMetricLim_off c nd nb ns name h1 h2
+
+/-- **a refused name changes no id** (any limits, any state satisfying the metadata invariant): the invariant
+is kept — so every later operation is covered by the sequential theorems again —, every name that had an id
+keeps it, the shards are untouched, and nothing is stored under the refused name -/
+theorem refused_name_changes_no_id (c : Cfg) {nd : Node} (inv : NodeInv nd) (nb ns name : Nat)
+    (href : (nd.genMetricLim c nb ns name).2 = .tooManyNamespaces ∨ (nd.genMetricLim c nb ns name).2 = .tooManyMetrics) :
+    NodeInv (nd.genMetricLim c nb ns name).1 ∧
+    (∀ key i, nd.view key = some i → (nd.genMetricLim c nb ns name).1.view key = some i) ∧
+    (nd.genMetricLim c nb ns name).1.view (.md (.metric nb ns name)) = none := by
+  obtain ⟨mi, mono, hn⟩ := genMetricLim_refused c inv.md nb ns name href
+  have hs := genMetricLim_shards c nd nb ns name
+  refine ⟨⟨mi, fun k => by rw [hs]; exact inv.sh k⟩, ?_, hn⟩
+  intro key i h
+  cases key with
+  | md k => exact mono k i h
+  | series sh m ts =>
+    show ((nd.genMetricLim c nb ns name).1.shards sh).series.lookup m ts = some i
+    rw [hs]; exact h
+
+/-- a refusal is reachable and is what the witness case replays: limits 1 / 2 admit two namespaces and three
+metric names (`limit < ids handed out`); the refused name is not found afterwards; lifting the limit gives it
+a fresh id -/
+example :
+    let c : Cfg := currentCfg
+    let nd0 : Node := { lim := { maxNamespaces := 1, maxMetrics := 2 } }
+    let r1 := nd0.genMetricLim c 97 0 0
+    let r2 := r1.1.genMetricLim c 98 1 0
+    let r3 := r2.1.genMetricLim c 99 2 0
+    let r4 := r3.1.genMetricLim c 97 0 1
+    let r5 := r4.1.genMetricLim c 97 0 2
+    let nd6 : Node := { r5.1 with lim := {} }
+    (r1.2, r2.2, r3.2, r4.2, r5.2) = (.out (.id 0), .out (.id 1), .tooManyNamespaces, .out (.id 2), .tooManyMetrics) ∧
+    r5.1.getMetric 97 0 2 = none ∧ r5.1.ns.mutEmpty = false ∧ (nd6.genMetricLim c 97 0 2).2 = .out (.id 3) := by decide
+
 end LinVerif.Props.C09
